@@ -863,4 +863,21 @@ Theorem C08_token_nil_iff : forall K prot_open unmarshal (k : K) enc,
 Proof. exact decode_nil_iff. Qed.
 Print Assumptions C08_token_nil_iff.
 
+(** Round 3 — "total".  Every model parser is a Gallina function, so it is defined on every byte
+    string; the content of the totality claim on the model side is that the fuel of its loops always
+    suffices: the frame parser never answers with the artificial class 98 and the transport-parameter
+    parser never with E_TP_FUEL (and `shrink_for_length_field` never with -1, see the C08_maxdatalen theorems).
+    That the Go code does not panic where the model answers is observed (recover() in every harness
+    call; exhaustively for all 1- and 2-byte payloads through implementation and model and all 3-byte
+    payloads through the implementation, at all four levels, in the thorough tier), not proved. *)
+From V Require Import Wire.TotalProofs.
+
+Theorem C08_frame_parser_never_out_of_fuel : forall c lvl b e n, parse_next c lvl b = Err e n -> e <> 98.
+Proof. exact parse_next_no_fuel. Qed.
+Print Assumptions C08_frame_parser_never_out_of_fuel.
+
+Theorem C08_tparams_never_out_of_fuel : forall pers ticket b c a, unmarshal pers ticket b = Err c a -> c <> E_TP_FUEL.
+Proof. exact unmarshal_no_fuel. Qed.
+Print Assumptions C08_tparams_never_out_of_fuel.
+
 (* ==== end tickets and tokens ==== *)
